@@ -12,6 +12,25 @@ CHECKS = {
 CHECKS["C09"] = dict(text="Theorems accessible_iff_read/write, inaccessible_fails, beyond_24_bits_fails, read_after_write, history_spec (induction over any history of byte accesses: the bus refines the abstract partial map address->byte), word/long big-endian composition and straddling - all over unbounded Z addresses - about the model of Bus::read/Bus::write and the CPU access helpers; model tied to /repo by classification reads, write-read, sized accesses at every region boundary and random histories on tagged memory with a whole-image diff.",
              ref="6 C09", technique="Coq proof (case analysis of the range chain + lia; induction over histories) + correspondence",
              note="trusted: Coq kernel, the memory map in Spec/MemMap.v, extraction, harness glue; port DDR/DR registers are outside the plain-storage claims (C16)")
+_TB = "trusted: Coq kernel (vm_compute in finite sweeps), the reference in coq/Spec (hand transcription of the manuals), extraction, harness glue; the model is tied to /repo by the correspondence run only"
+CHECKS["C01"] = dict(text="Theorems (Coq): MOV Rs,Rd instruction-level refinement for B/W/L (value, N/Z/V rule, frame), MOV flag rule for every width, byte/word register-lane read/write = reference lane arithmetic, big-endian memory composition; memory-operand MOV forms are covered at EA level (C08) and by correspondence. Correspondence: every MOV form x register fields x boundary data x CCR x placements over RAM/DRAM/vector area on tagged memory, full-state comparison with the reference semantics.",
+  ref="6 C01", technique="Coq proof (register forms instruction-level; lanes, flags, EA as lemmas) + correspondence vs executable reference", note=_TB + "; instruction-level theorems for memory-operand MOV forms are not proved (partial), they rest on the lemmas plus differential testing")
+CHECKS["C02"] = dict(text="Theorems (Coq): every ADD/SUB/CMP/ADDX/NEG/INC/DEC/DIVXU kernel of the model (overflowing_add on the signed view, masked partial sums, ...) equals the manual-style reference for all operands of width 8/16/32 and all CCR values; instruction-level refinement of the Rs,Rd and unary register forms (full source field read, only the destination written, CCR frame, one fetch charged). Correspondence: all 8-bit operand pairs (x carry) for byte forms, boundary-directed W/L, all register fields.",
+  ref="6 C02", technique="Coq proof (lia after mask/shift-to-arithmetic rewriting; finite sweeps for CCR bit access) + exhaustive/boundary correspondence", note=_TB + "; immediate forms, ADDS/SUBS, MULXU at instruction level rest on kernels + correspondence")
+CHECKS["C03"] = dict(text="Theorems (Coq): AND/OR/XOR/NOT/EXTU and the eight one-bit shifts/rotates of the model equal the arithmetic reference for all n-bit operands and CCR values (SHAL: all outputs but V always, V outside the recorded known class; shal_v_refuted gives the witness); instruction-level refinement for the register forms. Correspondence: exhaustive 8-bit operands x carries, boundary W/L.",
+  ref="6 C03", technique="Coq proof (bit-idiom lemmas: lor of disjoint = +, single-bit masks) + correspondence", note=_TB + "; known finding: SHAL V flag (pinned by the repository's own unit tests)")
+CHECKS["C04"] = dict(text="Theorems (Coq): all 14 bit operations x 256 byte values x 8 bit numbers x 256 CCR values: model kernel = reference (exhaustive sweep lifted to a forall); the reference changes exactly the addressed bit / the named flag; instruction-level refinement for register operands with immediate and register bit numbers (all 256 register values). Correspondence: the same sweep end-to-end on the implementation for Rd, @ERd and @aa:8 operands.",
+  ref="6 C04", technique="Coq proof by exhaustive vm_compute sweep (bounds in the statement) + instruction-level lemma + correspondence", note=_TB + "; memory-operand forms at instruction level rest on kernel + EA lemmas + correspondence")
+CHECKS["C05"] = dict(text="Theorems (Coq): the 16 x 256 condition table of the model = reference; call_rts_inverse on the reference (push of the return address then RTS restores PC, SP, CCR, all registers and all memory outside the frame, any 32-bit SP). Correspondence: 16 x 256 x {d:8,d:16} exhaustively, all JMP/BSR/JSR/RTS forms with stacks in RAM/DRAM and arbitrary upper byte.",
+  ref="6 C05", technique="Coq proof (finite sweep; read-after-write on plain memory) + correspondence", note=_TB + "; refinement of the branch handlers to the reference is by correspondence (partial)")
+CHECKS["C06"] = dict(text="Theorem (Coq): entry_rte_inverse on the reference for every CCR, vector content, return address and 32-bit SP with the frame in plain memory: frame = CCR:8|return:24 at SP-4, I set, PC = low 24 bits of the vector, RTE restores PC, CCR, SP, registers, memory outside the frame. Correspondence: TRAPA #1-3 / RTE x all 256 CCR, interrupt entry for vectors 1-63, entry;RTE round trips, vs the reference.",
+  ref="6 C06", technique="Coq proof on the reference + correspondence of the implementation against it", note=_TB + "; the UI bit is left open at entry (masked in the comparison)")
+CHECKS["C07"] = dict(text="Theorems (Coq): for all 65536 first words the model's dispatch selects the handler family and operand fields the reference operation-code map assigns (or a failing handler for every listed unimplemented instruction: unimplemented_rejected), and likewise for every second word of the prefixes 0100, 0140, 01F0, 78r0, 7Cr0, 7Dr0, 7E/7F; all by exhaustive sweeps. Correspondence: all 65536 first words and the second words of every prefix on the implementation, Ok/Err, length and full state against decode_ref + sem_ref.",
+  ref="6 C07", technique="Coq proof by exhaustive vm_compute sweeps over opcode words + correspondence", note=_TB + "; undefined encodings are not claimed; known findings: SHAL V, STC.W @-ERd")
+CHECKS["C08"] = dict(text="Theorems (Coq): @ERn, @(d:16,ERn), @(d:24,ERn), @aa:8, @aa:16 helpers of the model = reference arithmetic modulo 2^24 for every 32-bit register value and displacement (wrapping included); upper_byte_irrelevant; post-increment / pre-decrement update the full 32-bit register. Correspondence: every memory-operand instruction with wrap-biased bases on tagged memory.",
+  ref="6 C08", technique="Coq proof (lia over mod 2^24 / 2^32) + correspondence", note=_TB + "; known finding: STC.W CCR,@-ERd is executed as a post-increment store")
+CHECKS["C20"] = dict(text="Theorems (Coq): every charge term of a handler is count x the C19 reference price at the stated address (fetch cycles at the instruction's address, data/stack/vector cycles at theirs); register ALU forms are charged one fetch independent of operand values. The per-form cycle table (cycles_ref) is compared with the implementation by correspondence: every form under random bus-controller settings.",
+  ref="6 C20", technique="Coq proof of the price terms + correspondence of the per-instruction totals against the transcribed cycle table", note=_TB + "; the per-form totals are checked by differential testing, not proved (partial); TRAPA #0 and I/O-register operands excluded")
 NOT_APPLICABLE = []
 
 def main():
